@@ -109,6 +109,9 @@ func (h *NFSProcedureHandler) handleCreate(body io.Reader, reply *RPCReply, auth
 			if newSize > uint64(math.MaxInt64) {
 				return h.createExistsReply(reply, NFSERR_INVAL, dirPreAttrs), nil
 			}
+			if max := h.server.handler.policy.Load().MaxFileSize; max > 0 && int64(newSize) > max {
+				return h.createExistsReply(reply, NFSERR_FBIG, dirPreAttrs), nil
+			}
 			if err := h.server.handler.fs.Truncate(targetPath, int64(newSize)); err != nil {
 				return h.createExistsReply(reply, mapError(err), dirPreAttrs), nil
 			}
